@@ -165,7 +165,8 @@ class SimTransport(asyncio.Transport):
         self.stalled = False
         self.buffer = bytearray()
         self.proto_paused = False
-        env.log("transport_new", tr=self.idx, conn=getattr(getattr(proto, "_connection", None), "_vf_id", None), sock=sock.idx)
+        self.conn_id = getattr(getattr(proto, "_connection", None), "_vf_id", None)
+        env.log("transport_new", tr=self.idx, conn=self.conn_id, sock=sock.idx)
 
     # --- client side -------------------------------------------------------
     def write(self, data) -> None:
